@@ -119,7 +119,8 @@ class Batch(ArrowSerializableDataclass):
 # serializations is the point).  Family A is exercised parent first, family B leaf first.
 def _family(suffix: str) -> dict[str, type]:
     ns: dict[str, Any] = {"dataclass": dataclass, "field": field, "ArrowSerializableDataclass": ArrowSerializableDataclass, "Color": Color}
-    exec(  # noqa: S102 - two structurally identical, distinct class families
+    exec(  # noqa: S102 - two structurally identical, distinct class families (compiled without this module's __future__ flags)
+      compile(
         f"""
 @dataclass(frozen=True)
 class Shape{suffix}(ArrowSerializableDataclass):
@@ -141,7 +142,7 @@ class Tagged{suffix}(Shape{suffix}):           # sibling child adding a NON-defa
 class Deep{suffix}(Labeled{suffix}):           # grandchild
     extra: list[int] = field(default_factory=list)
     note: str | None = "n"
-""",
+""", "<c02-family>", "exec", dont_inherit=True),
         ns,
     )
     return {k: v for k, v in ns.items() if isinstance(v, type) and k.endswith(suffix) and k != "Color"}
